@@ -12,7 +12,23 @@ from . import _rtcprops as R
 
 def main():
     spec = P.SPECS["C04"]
-    rep, recs = T.run("C04", spec["families"], spec["level"], spec["text"], optsets=P.optsets_for("C04"), programs=P.programs_for("C04"), fns=P.CODEGEN_FNS)
+    programs = P.programs_for("C04")
+    src_of = {p_["name"]: p_["src"] for p_ in programs}
+
+    def handle(f, rec, item):
+        # Known finding F-04 (a loop re-entering a try whose out-of-space handler leads back to the append) also turns up in *generated*
+        # programs at some seeds.  A failed out-of-space cycle obligation in a generated program is tagged with whether the program's
+        # source has that shape (an append inside a try with a handler for out-of-space, inside a loop); only tagged ones are attributed
+        # to the finding (known_findings.json, F-04g).  Corpus programs are never tagged: what pins F-04, F-04f and the seeded changes
+        # of this kind (C04-5) is decided on them without this attribution.
+        import re
+        oid = item[1]
+        if rec["prog"].startswith("gen/") and re.fullmatch(r"feed/cycle\.oos\.[\d-]+", oid):
+            src = src_of.get(rec["prog"], "")
+            if re.search(r"\bloop\b", src) and re.search(r"\btry\b", src) and "+=" in src and (re.search(r"catch\s*\{", src) or re.search(r"catch\s*\([^)]*outofspace", src)):
+                f.signature += "|shape:loop-try-append-catch-outofspace"
+        return f
+    rep, recs = T.run("C04", spec["families"], spec["level"], spec["text"], optsets=P.optsets_for("C04"), programs=programs, fns=P.CODEGEN_FNS, handle=handle)
     sel = lambda c: c.startswith("DfaCompileCtx.compile/C04")
     rep2, outs = R.run_contracts("C04", sel, ["DfaCompileCtx.compile/C04"], ["fallthrough"], "all", "", ["DfaCompileCtx._verify_fallthrough_loop", "LoopNode.convert", "ForeachNode.convert"], rep=rep)
     rep.coverage["bound"] = "per program; bounded over the program sets. Soundness of _verify_fallthrough_loop for all programs is not proved."
